@@ -88,3 +88,106 @@ func init() {
 		New:    "\tallEnvironment, err := Parse(r)\n\t_ = err",
 		Expect: "parser.ParseReader | errors-propagated"})
 }
+
+func init() {
+	addFixture(Fixture{Name: "fwd-types-not-compared", Rule: "R-MUST-CHECK", File: "process/typechecker.go",
+		Old:    "\tif !types.EqualType(providerType, clientType, labelledTypesEnv) {",
+		New:    "\tif false && !types.EqualType(providerType, clientType, labelledTypesEnv) {",
+		Expect: "(*process.ForwardForm).typecheckForm"})
+	addFixture(Fixture{Name: "case-coverage-dropped", Rule: "R-CASE-EXACT", File: "process/typechecker.go",
+		Old:    "\t\tif len(labelsChecked) < len(clientSelectLabelType.Branches) {",
+		New:    "\t\tif len(labelsChecked) > len(clientSelectLabelType.Branches) {",
+		Expect: "all-labels-covered:arm#2"})
+	addFixture(Fixture{Name: "cut-independence-dropped", Rule: "R-INDEPENDENCE", File: "process/typechecker.go",
+		Old:    "\t\t\terr := declationOfIndependence(gammaLeftNameTypesCtx.getNames(), functionSignatureType)\n\t\t\tif err != nil {\n\t\t\t\treturn TypeErrorE(err)\n\t\t\t}",
+		New:    "\t\t\tvar err error",
+		Expect: "root-site:cut-body#1"})
+	addFixture(Fixture{Name: "shift-direction-flipped", Rule: "R-SHIFT-LEGAL", File: "process/typechecker.go",
+		Old:    "\t\tif !clientDownType.From.CanBeDownshiftedTo(clientDownType.To) {",
+		New:    "\t\tif !clientDownType.From.CanBeUpshiftedTo(clientDownType.To) {",
+		Expect: "rule-asserting:DownType"})
+	addFixture(Fixture{Name: "unset-not-rejected", Rule: "R-UNSET-REJECTED", File: "types/modality.go",
+		Old:    "func (q *UnitType) checkTypeModalities(labelledTypesEnv LabelledTypesEnv, currentMode Modality) error {\n\t_, unset := q.Mode.(*UnsetMode)\n\tinvalidMode, invalid := q.Mode.(*InvalidMode)\n\n\tif unset || q.Mode == nil {",
+		New:    "func (q *UnitType) checkTypeModalities(labelledTypesEnv LabelledTypesEnv, currentMode Modality) error {\n\t_, unset := q.Mode.(*UnsetMode)\n\tinvalidMode, invalid := q.Mode.(*InvalidMode)\n\n\tif false && (unset || q.Mode == nil) {",
+		Expect: "(*types.UnitType).checkTypeModalities | mode-field:Mode"})
+	addFixture(Fixture{Name: "child-not-visited", Rule: "R-REC-COMPLETE", File: "types/types_sanity_checks.go",
+		Old:    "func (q *ReceiveType) checkTypeLabels(labelledTypesEnv LabelledTypesEnv) error {\n\terr := q.Left.checkTypeLabels(labelledTypesEnv)\n\n\tif err != nil {\n\t\treturn err\n\t}\n\n\terr = q.Right.checkTypeLabels(labelledTypesEnv)\n\n\tif err != nil {\n\t\treturn err\n\t}\n",
+		New:    "func (q *ReceiveType) checkTypeLabels(labelledTypesEnv LabelledTypesEnv) error {\n\terr := q.Left.checkTypeLabels(labelledTypesEnv)\n\n\tif err != nil {\n\t\treturn err\n\t}\n",
+		Expect: "checkTypeLabels:child:Right"})
+	addFixture(Fixture{Name: "copyform-case-missing", Rule: "R-EXHAUSTIVE", File: "process/form.go",
+		Old:    "\tcase *DropForm:\n\t\tp, ok := orig.(*DropForm)\n\t\tif ok {\n\t\t\tbody := CopyForm(p.continuation_e)\n\t\t\treturn NewDrop(*p.client_c.Copy(), body)\n\t\t}\n",
+		New:    "",
+		Expect: "process.CopyForm | type-switch:Form"})
+	addFixture(Fixture{Name: "cli-typecheck-skipped-for-small", Rule: "R-CLI-GATE", File: "cmd/cli.go",
+		Old:    "\tif typecheckRes {\n\t\terr = process.Typecheck(processes, assumedFreeNames, globalEnv)",
+		New:    "\tif typecheckRes && len(processes) > 1 {\n\t\terr = process.Typecheck(processes, assumedFreeNames, globalEnv)",
+		Expect: "typechecked-before:InitializeProcesses"})
+	addFixture(Fixture{Name: "global-cache", Rule: "R-GLOBALS", File: "process/global_env.go",
+		Old:    "// Common environment used both by the typechecker and interpreter/runtime environment\n",
+		New:    "var lastEnv *GlobalEnvironment\n\nfunc rememberEnv(g *GlobalEnvironment) { lastEnv = g }\n",
+		Expect: "global:process.lastEnv"})
+	addFixture(Fixture{Name: "dup-unguarded-send", Rule: "R-DUP-FIRST", File: "process/transition.go",
+		Old:    "\tif len(process.Providers) > 1 {\n\t\t// Split process if needed\n\t\tprocess.performDUPrule(re)\n\t} else {\n\t\t// Send message and perform the remaining work defined by continuationFunc",
+		New:    "\tif len(process.Providers) > 2 {\n\t\t// Split process if needed\n\t\tprocess.performDUPrule(re)\n\t} else {\n\t\t// Send message and perform the remaining work defined by continuationFunc",
+		Expect: "process.TransitionBySending"})
+	addFixture(Fixture{Name: "gc-does-not-cascade", Rule: "R-GC-PROPAGATES", File: "process/transition.go",
+		Old:    "\tfor _, fn := range process.Body.FreeNames() {\n\t\tp := createDroppableForwardFromClient(process, re, fn)\n\t\tp.SpawnThenTransition(re)\n\t}\n\n\tprocess.terminate(re)",
+		New:    "\tprocess.terminate(re)",
+		Expect: "gc-cascades-to-free-names"})
+	addFixture(Fixture{Name: "call-body-not-copied", Rule: "R-COPY-PER-USE", File: "process/transition.go",
+		Old:    "\t\tfunctionCallBody := CopyForm(functionCall.Body)\n",
+		New:    "\t\tfunctionCallBody := functionCall.Body\n",
+		Expect: "(*process.CallForm).Transition$1"})
+	addFixture(Fixture{Name: "monitor-gets-live-body", Rule: "R-MONITOR-COPY", File: "process/monitor.go",
+		Old:    "func (m *Monitor) MonitorNewProcess(process *Process) {\n\tbody := CopyForm(process.Body)",
+		New:    "func (m *Monitor) MonitorNewProcess(process *Process) {\n\tbody := process.Body",
+		Expect: "(*process.Monitor).MonitorNewProcess | monitor-update"})
+	addFixture(Fixture{Name: "binder-not-removed-from-free-names", Rule: "R-BINDERS", File: "process/form.go",
+		Old:    "\tcontinuation_e_excluding_bound_names := removeBoundName(p.continuation_e.FreeNames(), p.channel_one)\n\tcontinuation_e_excluding_bound_names = removeBoundName(continuation_e_excluding_bound_names, p.channel_two)",
+		New:    "\tcontinuation_e_excluding_bound_names := removeBoundName(p.continuation_e.FreeNames(), p.channel_one)",
+		Expect: "process.SplitForm | binders-agree:continuation_e"})
+	addFixture(Fixture{Name: "substitute-ignores-initialisation", Rule: "R-SUBST-CONTRA", File: "process/name.go",
+		Old:    "\t} else if !n.Initialized() && !old.Initialized() && n.Ident == old.Ident {",
+		New:    "\t} else if !n.Initialized() && n.Ident == old.Ident {",
+		Expect: "state:n=uninit,old=init-other,ident=equal"})
+	addFixture(Fixture{Name: "spawn-shares-body", Rule: "R-SPAWN-OWNERSHIP", File: "process/transition.go",
+		Old:    "\t\tnewDuplicatedProcessBody := CopyForm(process.Body)\n",
+		New:    "\t\tnewDuplicatedProcessBody := process.Body\n",
+		Expect: "(*process.Process).performDUPrule | new-process-body#1"})
+	addFixture(Fixture{Name: "contractivity-unchecked", Rule: "R-CONTRACTIVE-GATE", File: "types/types_sanity_checks.go",
+		Old:    "\t\tif !ok {\n\t\t\treturn fmt.Errorf(\"session type definition for %s (= %s) is not contractive\", j.Name, j.SessionType.String())\n\t\t}",
+		New:    "\t\t_ = ok",
+		Expect: "contractivity-checked"})
+	addFixture(Fixture{Name: "unfold-guard-removed", Rule: "R-UNFOLD-GUARD", File: "types/modality.go",
+		Old:    "\t\tif !usedLabels[q.Label] {\n\t\t\t// no cycle reached yet\n\t\t\tusedLabels[q.Label] = true\n\t\t\treturn typeFromLabel.Type.inferModality(labelledTypesEnv, usedLabels)\n\t\t}",
+		New:    "\t\treturn typeFromLabel.Type.inferModality(labelledTypesEnv, usedLabels)",
+		Expect: "(*types.LabelType).inferModality"})
+	addFixture(Fixture{Name: "reinit-counter-forgotten", Rule: "R-REINIT", File: "process/runtime.go",
+		Old:    "\tre.deadProcessCount = 0\n\tre.debugChannelCounter = 0",
+		New:    "\tre.debugChannelCounter = 0",
+		Expect: "reinit:deadProcessCount"})
+	addFixture(Fixture{Name: "lexer-reused", Rule: "R-FRESH-PARSE", File: "parser/lexer.go",
+		Old:    "func newLexer(r io.Reader) *lexer {\n\treturn &lexer{scanner: newScanner(r), Errors: make(chan error, 1)}\n}",
+		New:    "var sharedLexer = &lexer{Errors: make(chan error, 1)}\n\nfunc newLexer(r io.Reader) *lexer {\n\tsharedLexer.scanner = newScanner(r)\n\treturn sharedLexer\n}",
+		Expect: "fresh-lexer-per-parse"})
+	addFixture(Fixture{Name: "print-fields-swapped", Rule: "R-PRINT-SLOTS", File: "process/form.go",
+		Old:    "\tbuf.WriteString(\"fwd \")\n\tbuf.WriteString(p.to_c.String())\n\tbuf.WriteString(\" \")\n\tbuf.WriteString(p.from_c.String())",
+		New:    "\tbuf.WriteString(\"fwd \")\n\tbuf.WriteString(p.from_c.String())\n\tbuf.WriteString(\" \")\n\tbuf.WriteString(p.to_c.String())",
+		Expect: "(*process.ForwardForm).String"})
+	addFixture(Fixture{Name: "comment-lookahead-dropped", Rule: "R-COMMENT-DFA", File: "parser/scanner.go",
+		Old:    "\t\t\tfor {\n\t\t\t\tif ch := s.read(); ch == '/' || ch == eof {\n\t\t\t\t\treturn\n\t\t\t\t}\n\t\t\t}",
+		New:    "\t\t\tif ch := s.read(); ch == '/' || ch == eof {\n\t\t\t\treturn\n\t\t\t}",
+		Expect: "never-reads-past-terminator"})
+	addFixture(Fixture{Name: "loop-returns-first", Rule: "R-QUANTIFIER-LOOP", File: "process/name.go",
+		Old:    "\tfor _, name := range list {\n\t\tif exists[name.Ident] {\n\t\t\treturn false\n\t\t}\n\t\texists[name.Ident] = true\n\t}\n\n\treturn true",
+		New:    "\tfor _, name := range list {\n\t\tif exists[name.Ident] {\n\t\t\treturn false\n\t\t}\n\t\texists[name.Ident] = true\n\t\treturn true\n\t}\n\n\treturn true",
+		Expect: "process.AllNamesUnique"})
+	addFixture(Fixture{Name: "mode-not-handed-down", Rule: "R-MODE-UNIFORM", File: "types/modality.go",
+		Old:    "\tif err := q.Right.checkTypeModalities(labelledTypesEnv, currentMode); err != nil {\n\t\treturn err\n\t}\n\n\treturn nil\n}\nfunc (q *ReceiveType) checkTypeModalities",
+		New:    "\tif err := q.Right.checkTypeModalities(labelledTypesEnv, q.Right.Modality()); err != nil {\n\t\treturn err\n\t}\n\n\treturn nil\n}\nfunc (q *ReceiveType) checkTypeModalities",
+		Expect: "child-mode:Right"})
+	addFixture(Fixture{Name: "cut-exempts-name", Rule: "R-CUT-SPLIT", File: "process/typechecker.go",
+		Old:    "splitGammaCtx(gammaNameTypesCtx, p.body.FreeNames(), nil, labelledTypesEnv)",
+		New:    "splitGammaCtx(gammaNameTypesCtx, p.body.FreeNames(), &p.new_name_c, labelledTypesEnv)",
+		Expect: "cut-split#2"})
+}
